@@ -414,6 +414,7 @@ pub fn oracle_c08(scn: &Scenario, t: &Trace, st: &mut ExploreStats) -> Vec<Viola
     }
     st.count(&format!("ended_by_{}", match fault {
         Ev::Close(_) => "close",
+        Ev::CloseRst(_) => "close_reset",
         Ev::ReadErr => "read_error",
         Ev::WriteErr => "write_error",
         Ev::Garbage => "garbage",
@@ -458,6 +459,8 @@ pub fn oracle_c08(scn: &Scenario, t: &Trace, st: &mut ExploreStats) -> Vec<Viola
     // an unclean end is surfaced
     let unclean = match fault {
         Ev::Close(_) => ref_decode(&t.s2c[scn.greeting.len().min(t.s2c.len())..]).end != RefEnd::Clean,
+        // a reset is unclean if the cut is inside a response or the client ran into a failing write
+        Ev::CloseRst(_) => ref_decode(&t.s2c[scn.greeting.len().min(t.s2c.len())..]).end != RefEnd::Clean || t.saw_write_err,
         Ev::ReadErr => t.saw_read_err,
         Ev::WriteErr => t.saw_write_err,
         Ev::Garbage => garbage_read,
@@ -469,7 +472,7 @@ pub fn oracle_c08(scn: &Scenario, t: &Trace, st: &mut ExploreStats) -> Vec<Viola
         let closing_event = t.events.iter().any(|e| e.text.starts_with("closed:"));
         let surfaced = caller_err || closing_event || scn.drop_events_rx && caller_err;
         if !surfaced && !scn.drop_events_rx {
-            let sig = if matches!(fault, Ev::Close(_)) { "C08/unclean-close-reported-clean" } else { "C08/failure-not-surfaced" };
+            let sig = if matches!(fault, Ev::Close(_) | Ev::CloseRst(_)) { "C08/unclean-close-reported-clean" } else { "C08/failure-not-surfaced" };
             out.push(Violation::new(sig, format!("{} ended the connection uncleanly but no caller saw a protocol error and no ConnectionClosed event was emitted (choices {:?})", fault.name(), choices), Value::Null));
         }
     } else {
@@ -564,7 +567,7 @@ pub fn s4(tier: Tier) -> Scenario {
     s.notify_budget = 1;
     s.split_budget = 1;
     s.split_menu = tier.pick(SplitMenu::Lines, SplitMenu::Bytes);
-    s.faults = vec![FaultKind::Close, FaultKind::ReadErr, FaultKind::WriteErr, FaultKind::Garbage, FaultKind::DropHandles];
+    s.faults = vec![FaultKind::Close, FaultKind::CloseRst, FaultKind::ReadErr, FaultKind::WriteErr, FaultKind::Garbage, FaultKind::DropHandles];
     s.fault_budget = 1;
     s.late_probe = true;
     s
@@ -576,9 +579,30 @@ pub fn micro_fault(tier: Tier) -> Scenario {
     s.notify_budget = 1;
     s.split_budget = 1;
     s.split_menu = tier.pick(SplitMenu::Lines, SplitMenu::Bytes);
-    s.faults = vec![FaultKind::Close, FaultKind::ReadErr, FaultKind::WriteErr, FaultKind::Garbage, FaultKind::DropHandles];
+    s.faults = vec![FaultKind::Close, FaultKind::CloseRst, FaultKind::ReadErr, FaultKind::WriteErr, FaultKind::Garbage, FaultKind::DropHandles];
     s.fault_budget = 1;
     s.late_probe = true;
+    s
+}
+
+pub fn s5(_tier: Tier) -> Scenario {
+    let mut s = Scenario::new(
+        "S5-three-callers",
+        vec![caller(vec![Op::Raw("cmd A1".into())]), caller(vec![Op::RawList(vec!["cmd B1a".into(), "cmd B1b".into()])]), caller(vec![Op::Raw("fail C1".into()), Op::Raw("cmd C2".into())])],
+    );
+    s.notify_names = vec!["player"];
+    s.notify_budget = 1;
+    s.split_budget = 1;
+    s
+}
+
+pub fn micro_ticks(_tier: Tier) -> Scenario {
+    let mut s = Scenario::new("micro-ticks-anywhere", vec![caller(vec![Op::Raw("cmd A1".into()), Op::Raw("cmd A2".into())])]);
+    s.notify_names = vec!["player"];
+    s.notify_budget = 1;
+    s.split_budget = 1;
+    s.tick_anywhere = true;
+    s.loose_tick_budget = 2;
     s
 }
 
@@ -605,19 +629,23 @@ pub fn run_plans(ctx: &Ctx, plans: Vec<Plan>, oracle: &Oracle, wall_cap: Duratio
     let deadline = Instant::now() + wall_cap;
     for plan in &plans {
         let budget = Budget { max_executions: u64::MAX, deadline };
-        // iterate the bound: 0, 1, … so that the completed bound can be reported
+        // explore at the requested bound; if the wall-clock cap is hit, fall back to bound-1
+        // (exponentially smaller) without a cap so that a *completed* bound can be reported
         let mut completed: Option<usize> = None;
-        let mut last: Option<ExploreStats> = None;
-        for b in [plan.bound] {
-            let st = explore(&plan.scn, b, oracle, &budget);
-            if !st.capped {
-                completed = Some(b);
-            }
-            last = Some(st);
-        }
-        let st = last.unwrap();
+        let mut capped_attempt: Option<Value> = None;
+        let mut st = explore(&plan.scn, plan.bound, oracle, &budget);
         if st.capped {
             all_complete = false;
+            capped_attempt = Some(json!({"bound": plan.bound, "executions_before_cap": st.executions}));
+            let found = std::mem::take(&mut st.viol);
+            viol.merge(found);
+            if plan.bound > 0 {
+                let far = Budget { max_executions: u64::MAX, deadline: Instant::now() + Duration::from_secs(3600) };
+                st = explore(&plan.scn, plan.bound - 1, oracle, &far);
+                completed = Some(plan.bound - 1);
+            }
+        } else {
+            completed = Some(plan.bound);
         }
         cov.evaluations += st.executions;
         cov.transitions += st.transitions;
@@ -629,7 +657,7 @@ pub fn run_plans(ctx: &Ctx, plans: Vec<Plan>, oracle: &Oracle, wall_cap: Duratio
             "scenario": plan.scn.to_json(),
             "deviation_bound_requested": plan.bound,
             "deviation_bound_completed": completed,
-            "capped": st.capped,
+            "capped_attempt": capped_attempt,
             "executions": st.executions,
             "events_executed": st.transitions,
             "distinct_visible_states": st.states.len(),
@@ -656,7 +684,7 @@ pub fn run_plans(ctx: &Ctx, plans: Vec<Plan>, oracle: &Oracle, wall_cap: Duratio
 }
 
 fn find_scenario(name: &str, tier: Tier) -> Option<Scenario> {
-    let mut all = vec![s1(tier), s1p(tier), s2(tier), s3(tier), micro(tier), micro2(tier), s4(tier), micro_fault(tier)];
+    let mut all = vec![s1(tier), s1p(tier), s2(tier), s3(tier), micro(tier), micro2(tier), s4(tier), micro_fault(tier), s5(tier), micro_ticks(tier)];
     let dropped: Vec<Scenario> = all.iter().cloned().map(with_dropped_events).collect();
     all.extend(dropped);
     all.into_iter().find(|s| s.name == name)
@@ -687,13 +715,15 @@ pub fn run_c01(tier: Tier) -> i32 {
     let mut ctx = Ctx::new("C01", tier, "model_checking");
     ctx.assume("the simulated server (mpdref::server) implements MPD's idle/noidle/command-list rules; replies identify the request line they answer");
     ctx.assume("one harness event per step, then run to quiescence: covers both outcomes of a select! with both branches ready (DESIGN.md section 5)");
-    let b = tier.pick(3, 4);
+    let b = tier.pick(4, 5);
     let plans = vec![
         Plan { scn: micro(tier), bound: 99 },
-        Plan { scn: micro2(tier), bound: tier.pick(4, 6) },
+        Plan { scn: micro_ticks(tier), bound: tier.pick(4, 6) },
+        Plan { scn: micro2(tier), bound: tier.pick(5, 7) },
         Plan { scn: s1(tier), bound: b },
         Plan { scn: s1p(tier), bound: b },
         Plan { scn: s2(tier), bound: b },
+        Plan { scn: s5(tier), bound: tier.pick(3, 4) },
         Plan { scn: with_dropped_events(s1(tier)), bound: tier.pick(2, 3) },
     ];
     let (cov, viol) = run_plans(
@@ -712,9 +742,11 @@ pub fn run_c04(tier: Tier) -> i32 {
     ctx.assume("the simulated server reports pending changes in MPD's fixed subsystem order and collapses repeated changes of one subsystem, as MPD's idle flags do");
     let plans = vec![
         Plan { scn: micro(tier), bound: 99 },
-        Plan { scn: micro2(tier), bound: tier.pick(4, 6) },
-        Plan { scn: s3(tier), bound: tier.pick(3, 4) },
-        Plan { scn: s1(tier), bound: tier.pick(3, 4) },
+        Plan { scn: micro_ticks(tier), bound: tier.pick(4, 6) },
+        Plan { scn: micro2(tier), bound: tier.pick(5, 7) },
+        Plan { scn: s3(tier), bound: tier.pick(4, 5) },
+        Plan { scn: s1(tier), bound: tier.pick(4, 5) },
+        Plan { scn: s5(tier), bound: tier.pick(3, 4) },
     ];
     let (cov, viol) = run_plans(
         &ctx,
@@ -732,12 +764,14 @@ pub fn run_c05(tier: Tier) -> i32 {
     ctx.assume("legality is judged by the simulated server at the moment of every write (eager processing; DESIGN.md section 5 argues this loses no client-observable behaviour)");
     let plans = vec![
         Plan { scn: micro(tier), bound: 99 },
-        Plan { scn: micro2(tier), bound: tier.pick(4, 6) },
-        Plan { scn: s1(tier), bound: tier.pick(3, 4) },
-        Plan { scn: s1p(tier), bound: tier.pick(3, 4) },
-        Plan { scn: s2(tier), bound: tier.pick(3, 4) },
-        Plan { scn: s3(tier), bound: tier.pick(3, 4) },
-        Plan { scn: with_dropped_events(s3(tier)), bound: 2 },
+        Plan { scn: micro_ticks(tier), bound: tier.pick(4, 6) },
+        Plan { scn: micro2(tier), bound: tier.pick(5, 7) },
+        Plan { scn: s1(tier), bound: tier.pick(4, 5) },
+        Plan { scn: s1p(tier), bound: tier.pick(4, 5) },
+        Plan { scn: s2(tier), bound: tier.pick(4, 5) },
+        Plan { scn: s3(tier), bound: tier.pick(4, 5) },
+        Plan { scn: s5(tier), bound: tier.pick(3, 4) },
+        Plan { scn: with_dropped_events(s3(tier)), bound: tier.pick(2, 3) },
     ];
     let (cov, viol) = run_plans(
         &ctx,
